@@ -1018,8 +1018,11 @@ class NamedVariables(UserDict):
     )
 
     def __init__(self, *args, **kws):
-        self._latent_pop_vars = set()
-        self._latent_ind_vars = set()
+        # insertion-ordered "sets" (dict keys): the automatic sums below must add their terms in an order
+        # that does not depend on PYTHONHASHSEED (float addition is not associative), otherwise results
+        # differ from one interpreter to the next and between the main process and joblib workers
+        self._latent_pop_vars = {}
+        self._latent_ind_vars = {}
         super().__init__(*args, **kws)
 
     def __len__(self):
@@ -1039,9 +1042,9 @@ class NamedVariables(UserDict):
         if isinstance(var, LatentVariable):
             self.update(var.get_regularity_variables(name))
             if isinstance(var, PopulationLatentVariable):
-                self._latent_pop_vars.add(name)
+                self._latent_pop_vars[name] = None
             else:
-                self._latent_ind_vars.add(name)
+                self._latent_ind_vars[name] = None
 
     def __getitem__(self, name: VariableName) -> VariableInterface:
         if name in self.AUTOMATIC_VARS:
